@@ -1,6 +1,6 @@
 // serves: C06 C14 C19
 // C06 / C14 / C19: the serialization layer (trait Serialize, its blanket impls, the impls of the raw / integer /
-// plain bit vectors and their support structures, skip_option / absent_option).
+// plain bit vectors and their support structures, the run-length vector, skip_option / absent_option).
 // Values are described to Coq by RECIPES (the generated data), never by their serialized form; the Coq side builds
 // the model value from the recipe and compares the bytes, sizes, consumed byte counts and outcomes.
 use crate::bvgen::*;
@@ -11,6 +11,7 @@ use simple_sds::bit_vector::{BitVector, Complement, Identity};
 use simple_sds::int_vector::{IntVector, IntVectorWriter};
 use simple_sds::ops::*;
 use simple_sds::raw_vector::{AccessRaw, PushRaw, RawVector, RawVectorWriter};
+use simple_sds::rl_vector::{RLBuilder, RLVector};
 use simple_sds::serialize::{self, Serialize};
 use std::fmt::Write as FmtWrite;
 use std::io::{self, ErrorKind, Read, Write};
@@ -450,6 +451,74 @@ fn g_bv(rng: &mut Rng, len: usize, subset: u64) -> G<BitVector> {
     g_bv_bits(&bits, subset)
 }
 
+// a run-length vector built through RLBuilder: `nruns` runs whose gaps and lengths follow `profile`
+// (0: 1..8, one code unit each; 1: mixed small / around 2^k, several code units; 2: huge universe), adjacent runs
+// (merged by the builder) now and then; `tail`: unset positions after the last run
+fn g_rl(rng: &mut Rng, nruns: usize, profile: u64, tail: usize) -> G<RLVector> {
+    let mut runs: Vec<(usize, usize)> = Vec::new();
+    let mut pos = 0usize;
+    // profile 2: the sum of all gaps and lengths stays below 2^62
+    let kmax = 42 - (64 - (2 * nruns as u64 + 2).leading_zeros()) as u64;
+    let pick = |rng: &mut Rng| -> usize {
+        match profile {
+            0 => 1 + rng.below(8) as usize,
+            1 => match rng.below(4) {
+                0 => 1 + rng.below(8) as usize,
+                1 => *rng.pick(&[7usize, 8, 9, 63, 64, 65, 511, 512, 513]),
+                _ => { let k = rng.below(20); ((1usize << k) + rng.below(3) as usize).saturating_sub(1).max(1) }
+            },
+            _ => match rng.below(3) {
+                0 => 1 + rng.below(8) as usize,
+                _ => { let k = 20 + rng.below(kmax); (1usize << k) + rng.below(1000) as usize }
+            },
+        }
+    };
+    for i in 0..nruns {
+        let gap = if rng.below(7) == 0 || (i == 0 && rng.below(2) == 0) { 0 } else { pick(rng) };
+        let l = pick(rng);
+        pos += gap;
+        runs.push((pos, l));
+        pos += l;
+    }
+    let len = match tail {
+        0 => pos,
+        1 => pos + 1 + rng.below(100) as usize,
+        2 => 1usize << 63,
+        _ => usize::MAX,
+    };
+    let len = std::cmp::max(len, pos);
+    let mut bld = RLBuilder::new();
+    for (s, l) in runs.iter() {
+        bld.try_set(*s, *l).unwrap();
+    }
+    bld.set_len(len);
+    let rv = RLVector::from(bld);
+    let probes: Vec<usize> = {
+        let mut p = vec![0usize, 1, len / 2, len.saturating_sub(1), len];
+        for (s, l) in runs.iter().take(6) {
+            p.extend_from_slice(&[*s, s + l - 1, s + l]);
+        }
+        p
+    };
+    let mut g = plain(rv, "TRL", format!("(RRL {} {})", nu(len), plist(&runs)));
+    g.answers = Box::new(move |a: &RLVector, b: &RLVector| {
+        let mut ok = a.len() == b.len() && a.count_ones() == b.count_ones();
+        ok &= a.run_iter().collect::<Vec<_>>() == b.run_iter().collect::<Vec<_>>();
+        for x in probes.iter() {
+            ok &= a.rank(*x) == b.rank(*x);
+            ok &= a.select(*x) == b.select(*x);
+            ok &= a.select_zero(*x) == b.select_zero(*x);
+            ok &= a.predecessor(*x).next() == b.predecessor(*x).next();
+            ok &= a.successor(*x).next() == b.successor(*x).next();
+            if *x < a.len() {
+                ok &= a.get(*x) == b.get(*x);
+            }
+        }
+        ok
+    });
+    g
+}
+
 fn small_len(rng: &mut Rng, max: usize) -> usize {
     match rng.below(6) {
         0 => 0,
@@ -464,7 +533,7 @@ const WIDTHS: [usize; 11] = [1, 2, 7, 8, 13, 31, 32, 33, 62, 63, 64];
 // one random item of a random type; `max` bounds the payload (bits for bit structures, items / 8 for vectors)
 fn random_item(rng: &mut Rng, max: usize) -> Box<dyn Item> {
     let vmax = std::cmp::max(1, max / 64);
-    match rng.below(24) {
+    match rng.below(27) {
         0 => Box::new(g_u64(rng)),
         1 => Box::new(g_usize(rng)),
         2 => Box::new(g_pair(rng)),
@@ -487,6 +556,8 @@ fn random_item(rng: &mut Rng, max: usize) -> Box<dyn Item> {
         20 => { let n = small_len(rng, 4 * max); Box::new(some(g_rank(rng, n))) }
         21 => { let n = small_len(rng, 4 * max); Box::new(some(g_sel_id(rng, n))) }
         22 => { let w = *rng.pick(&WIDTHS); let n = small_len(rng, max / w); Box::new(some(g_int(rng, n, w))) }
+        24 | 25 => { let n = small_len(rng, max / 16); let p = rng.below(3); let t = rng.below(4) as usize; Box::new(g_rl(rng, n, p, t)) }
+        26 => { let n = small_len(rng, max / 16); let p = rng.below(3); let t = rng.below(4) as usize; Box::new(some(g_rl(rng, n, p, t))) }
         _ => { let n = small_len(rng, vmax); Box::new(some(g_vec_u64(rng, n))) }
     }
 }
@@ -557,6 +628,19 @@ fn systematic_items(rng: &mut Rng, thorough: bool) -> Vec<Box<dyn Item>> {
     v.push(Box::new(some(g_rank(rng, 1025))));
     v.push(Box::new(some(g_sel_co(rng, 300))));
     v.push(Box::new(none::<SelectSupport<Identity>>("TSelect")));
+    // run-length vectors: empty, one run, block boundaries (64 code units per block), every universe size
+    for n in [0usize, 1, 2, 15, 16, 17, 31, 32, 33, 64, 65] {
+        for profile in 0..3u64 {
+            let tail = ((n as u64 + profile) % 4) as usize;
+            v.push(Box::new(g_rl(rng, n, profile, tail)));
+        }
+    }
+    for tail in 0..4usize {
+        v.push(Box::new(g_rl(rng, 0, 0, tail)));
+        v.push(Box::new(g_rl(rng, 40, 1, tail)));
+    }
+    v.push(Box::new(some(g_rl(rng, 20, 1, 3))));
+    v.push(Box::new(none::<RLVector>("TRL")));
     v
 }
 
